@@ -69,7 +69,19 @@ func (c *Ctx) execCall(st *State, fr *Frame, instr ssa.Instruction, call *ssa.Ca
 		se := &SpecEnv{c: c, st: st, vars: env, pkg: c.pkgOfFrame(fr), old: fr.entry, fr: fr}
 		for _, cl := range bcs {
 			for _, cj := range se.splitConjuncts(cl.E, 0) {
-				g := se.prove(cj)
+				g, unresolved := c.proveAtReturn(se, cj)
+				if unresolved != "" {
+					// "A ==> B" where B mentions a local that does not exist on this path: A must be false here
+					imp, ok := cj.(*EBinary)
+					if !ok || imp.Op != "==>" {
+						panic(specErr{"assertion mentions unknown name " + unresolved + ": " + cj.String()})
+					}
+					g2, un2 := c.proveAtReturn(se, &EUnary{"!", imp.L})
+					if un2 != "" {
+						panic(specErr{"assertion mentions unknown name " + un2 + " in its antecedent: " + cj.String()})
+					}
+					g = g2
+				}
 				if !c.tagSelected(cl.Tags) {
 					continue
 				}
@@ -472,6 +484,10 @@ func (c *Ctx) evalAssigns(se *SpecEnv, ct *Contract, kind string, loop int) (loc
 				star = true
 				continue
 			}
+			if id, ok := e.(*EIdent); ok && id.Name == "foreign" {
+				locs = append(locs, Loc{Kind: "foreign", Text: "foreign"})
+				continue
+			}
 			if u, ok := e.(*EUnary); ok && u.Op == "*" {
 				if id, ok := u.X.(*EIdent); ok && id.Name == "" {
 					star = true
@@ -550,6 +566,15 @@ func (c *Ctx) havocLocs(st *State, pre *MemSnap, locs []Loc, star bool, preTop s
 		st.epochTop = top
 		return
 	}
+	hasForeign := false
+	for _, l := range locs {
+		if l.Kind == "foreign" {
+			hasForeign = true
+		}
+	}
+	if hasForeign {
+		c.havocForeign(st, locs)
+	}
 	// which keys are touched
 	keys := map[string]bool{}
 	for _, l := range locs {
@@ -588,6 +613,9 @@ func (c *Ctx) havocLocs(st *State, pre *MemSnap, locs []Loc, star bool, preTop s
 	}
 	var sorted []string
 	for key := range keys {
+		if hasForeign && !strings.HasPrefix(key, "G:") {
+			continue // real memory was already re-versioned by havocForeign
+		}
 		sorted = append(sorted, key)
 	}
 	sortStrings(sorted)
@@ -714,6 +742,8 @@ func (c *Ctx) frameCheckCall(st *State, fr *Frame, instr ssa.Instruction, name s
 			gs = append(gs, or(ds...))
 		case "map":
 			gs = append(gs, or("(> (root "+l.Addr+") "+c.h0+")", c.mapInFrame(locs, l.Addr)))
+		case "foreign":
+			// foreign writes are by assumption outside the caller's own objects
 		case "ghost":
 			var ds []string
 			switch l.OwnerSort {
@@ -1172,4 +1202,51 @@ func (c *Ctx) callClauses(fr *Frame, call *ssa.CallCommon, kind string) []*Claus
 		out = append(out, cl)
 	}
 	return out
+}
+
+// havocForeign: the callee may write any memory except objects that belong to the function under
+// verification: those reachable directly from its pointer-shaped parameters (their roots) and those
+// it allocated itself. (Separation assumption about foreign code such as node assemblers: they keep
+// no pointer into the caller's private state. Listed in the evidence file.)
+func (c *Ctx) havocForeign(st *State, locs []Loc) {
+	c.foreignUsed = true
+	var prot []string
+	if c.topFrame != nil {
+		for _, p := range c.fn.Params {
+			t := c.topFrame.regs[p]
+			switch t.So {
+			case "Addr":
+				prot = append(prot, "(root "+t.S+")")
+			case "Slice":
+				prot = append(prot, "(root (sarr "+t.S+"))")
+			}
+		}
+	}
+	for _, r := range st.ownRoots.collect() {
+		prot = append(prot, r)
+	}
+	st.heapTop = c.declareHeapGrow(st)
+	var keys []string
+	for key := range c.memSorts {
+		keys = append(keys, key)
+	}
+	sortStrings(keys)
+	for _, key := range keys {
+		if strings.HasPrefix(key, "G:") {
+			continue // ghost state is only changed through explicit assigns clauses
+		}
+		old, nw := c.havocMem(st, key)
+		var ds []string
+		for _, r := range prot {
+			ds = append(ds, "(= (root a) "+r+")")
+		}
+		ds = append(ds, "(< (root a) 0)") // globals and private locals
+		var inf string
+		if strings.HasPrefix(key, "M:") {
+			inf = c.inFrame(locs, key, "a")
+		} else {
+			inf = c.mapInFrame(locs, "a")
+		}
+		st.assume("(forall ((a Addr)) (! (=> (and " + or(ds...) + " (not " + orFalse(inf) + ")) (= (select " + nw + " a) (select " + old + " a))) :pattern ((select " + nw + " a))))")
+	}
 }
